@@ -171,7 +171,7 @@ def run(ctx):
         for h in order:
             if kind in ("date", "datetime") and h not in ("count", "count_unique", "first", "last", "nth", "mode", "min", "max"):
                 continue
-            for layout in range(8):
+            for layout in range(9):
                 hist.append({"t": "call", "h": h, "kind": kind, "status": "", "broken": False, "layout": layout, "h2": "",
                              "a": {"dropna": rng.choice([True, False]), "idx": rng.choice([0, 1, -1, 5]), "q4": rng.choice([1, 2, 3]),
                                    "ddof": rng.choice([0, 1, 2])}, "big": layout % 2 == 1})
@@ -195,7 +195,7 @@ def run(ctx):
             for e in h:
                 h2.append(e)
                 if e["t"] == "call":
-                    for lay in (3, 4, 5, 6):
+                    for lay in (3, 4, 5, 6, 8):
                         h2.append(dict(e, status="", layout_fixed=lay))
             h = h2
         expanded.append(h)
@@ -203,7 +203,7 @@ def run(ctx):
     for h in chosen:
         for e in h:
             if e["t"] == "call":
-                e["layout"] = e.pop("layout_fixed") if "layout_fixed" in e else rng.randrange(8)
+                e["layout"] = e.pop("layout_fixed") if "layout_fixed" in e else rng.randrange(9)
                 e["a"] = {"dropna": rng.choice([True, False]), "idx": rng.choice([0, 1, -1, 5]), "q4": rng.choice([1, 2, 3]),
                           "ddof": rng.choice([0, 0, 1, 2])}
                 e["big"] = rng.random() < 0.25
